@@ -38,11 +38,16 @@ if meta["confirmed"]:
     shutil.rmtree(scratch, ignore_errors=True)
 meta["checks"] = res
 meta["caught_by"] = [p for p, r in res.items() if r["rc"] == 1]
+meta["verif_commit"] = subprocess.run(["git", "-C", V, "rev-parse", "--short", "HEAD"], capture_output=True, text=True).stdout.strip()
 sh("git checkout -- . && git clean -fdq src")
 old = {}
 mp = os.path.join(dst, "meta.json")
 if os.path.exists(mp):
     old = json.load(open(mp))
+if os.environ.get("SEED_MERGE") == "1" and old.get("checks") and old.get("base") == meta.get("base"):
+    merged = dict(old["checks"]); merged.update(res)
+    meta["checks"] = merged
+    meta["caught_by"] = [p for p, r in merged.items() if r["rc"] == 1]
 old.update(meta)
 json.dump(old, open(mp, "w"), indent=1)
 print(json.dumps({k: meta[k] for k in ("name", "confirmed", "caught_by")}), flush=True)
